@@ -105,6 +105,7 @@ func signV1(st consensus.State, txn *types.Transaction, sk types.PrivateKey) {
 
 type replayStats struct {
 	controls, rejected int
+	attempts           int // cross-era validations run (refused or, wrongly, accepted)
 	byPair             map[string]int
 	purposeControls    int
 	purposeRejected    map[string]int
@@ -201,6 +202,7 @@ func (k *checker) eraReplay(sim *chain.Sim, rs *replayStats, nextSC, nextSF func
 			t2.Signatures = append([]types.TransactionSignature{}, sh.txn.Signatures...)
 			signV1(foreign, &t2, A)
 			pair := eraOfHeight(other) + "->" + here
+			rs.attempts++
 			if ok, _ := validV1(sim, t2); ok {
 				c.Violation("replay/v1-era/"+sh.name, fmt.Sprintf("a v1 transaction (%s) signed under the signature hash of era %s is accepted by ValidateBlock in era %s (%s)", sh.name, eraOfHeight(other), here, pair),
 					map[string]any{"shape": sh.name, "signed_in": eraOfHeight(other), "validated_in": here, "height": sim.CS.Index.Height, "transaction": fmt.Sprintf("%+v", t2)})
